@@ -405,6 +405,24 @@ pub fn run(ctx: &Ctx, rep: &mut Report) {
                     stash.push((cand, plan));
                 }
             }
+            if rng.chance(1, 10) {
+                let ga = g.addr.clone();
+                match u.upgrade_and_migrate(&ga) {
+                    Ok(()) => {
+                        rep.count("upgrade-and-migrate");
+                        rep.step("the gateway is upgraded to the same code and migrated".into());
+                        if let Some(dd) = g.check_lookups(&mut u) {
+                            rep.violation("lookups-changed-by-upgrade-and-migrate", dd);
+                            break;
+                        }
+                    }
+                    Err(e) => {
+                        rep.step(format!("upgrade and migrate -> {}", e));
+                        rep.foreign("upgrade-or-migrate-refused");
+                        break;
+                    }
+                }
+            }
             // ledger time moves on arbitrarily; the delay is 0 here (C09 owns the clock)
             u.set_time(u.time() + rng.below(3));
             if rng.chance(1, 8) {
